@@ -89,7 +89,7 @@ def read_histories(path):
             cur = Hist(f[1], f[2], f[3])
             if len(f) >= 6:
                 cur.kind = f[5]
-        elif f[0] in ("D", "T"):
+        elif f[0] in ("D", "T", "Y"):
             cur.setup.append(f)
         elif f[0] == "E":
             hs.append(cur)
